@@ -14,7 +14,14 @@ import gentree
 
 ADD_HEADS = [" ", "", "\n"]
 CORE = ["lo", "hi", "cl", "nr"]
-FULL = ["lo", "hi", "cl", "ww", "nr", "br", "fr", "ft"]
+# "ls": a CLOSED range one of whose bounds only looks like the wildcard (literal star `\\*`, `"*"`, `**`, ...)
+CORE5 = CORE + ["ls"]
+FULL = ["lo", "hi", "cl", "ww", "nr", "br", "fr", "ft", "ls"]
+# bounds that look like the wildcard `*` without being Word("*"); the first one is the literal star
+LOOKALIKE_WORDS = ["\\*", "*\\ ", "\\\\*", "?", "a*", "*a", "**", "\\?", "*?", " *", "* "]
+LOOKALIKE_PHRASES = ['"*"', '"\\*"', '"**"']
+# pairs equal up to escaping
+ESCAPED_PAIRS = [("a", "\\a"), ("\\*", "\\*"), ("1", "\\1"), ("\\a", "\\a"), ("*", "\\*"), ("\\*", "*")]
 
 
 class Build:
@@ -31,6 +38,20 @@ class Build:
         if self.r.random() < 0.2:
             w.head, w.tail = self.r.choice(gentree.SPACES), self.r.choice(gentree.SPACES)
         return w
+
+    def lookalike(self):
+        """a bound that is NOT the wildcard but resembles it"""
+        T, r = self.T, self.r
+        x = r.random()
+        if x < 0.5:
+            b = T.Word("\\*")
+        elif x < 0.85:
+            b = T.Word(r.choice(LOOKALIKE_WORDS))
+        else:
+            b = T.Phrase(r.choice(LOOKALIKE_PHRASES))
+        if r.random() < 0.15:
+            b.head, b.tail = r.choice(gentree.SPACES), r.choice(gentree.SPACES)
+        return b
 
     def lay(self, node, p=0.3):
         r = self.r
@@ -60,6 +81,17 @@ class Build:
             return self.lay(T.Range(self.num(), self.num(), r.random() < 0.5, r.random() < 0.5))
         if kind == "ww":
             return self.lay(T.Range(self.star(), self.star(), r.random() < 0.5, r.random() < 0.5))
+        if kind == "ls":
+            il, ih = r.random() < 0.5, r.random() < 0.5
+            x = r.random()
+            if x < 0.45:
+                return self.lay(T.Range(self.num(), self.lookalike(), il, ih))
+            if x < 0.9:
+                return self.lay(T.Range(self.lookalike(), self.num(), il, ih))
+            if x < 0.95:
+                return self.lay(T.Range(self.lookalike(), self.lookalike(), il, ih))
+            a, b = r.choice(ESCAPED_PAIRS)     # both sides equal up to escaping (one may be the real *)
+            return self.lay(T.Range(T.Word(a), T.Word(b), il, ih))
         if kind == "nr":
             self.n += 1
             return self.lay(T.Word("w%d" % (self.n % 3)))
@@ -88,7 +120,8 @@ class Build:
             if x == 6:
                 return self.lay(T.Not(self.one_sided()))
             if x == 7:
-                return self.lay(T.Word("*"))
+                return self.lay(r.choice([T.Word("*"), self.lookalike(), T.From(self.lookalike()),
+                                          T.To(self.lookalike(), False)]))
             if x == 8:   # a range whose bound is a range / comparison
                 return self.lay(T.Range(self.one_sided(), self.star()))
             if x == 9:
@@ -318,14 +351,29 @@ def correspond(model_ok, res):
         T.AndOperation(), T.AndOperation(R(W("1"), W("*"))), T.From(T.NoneItem()),
         T.AndOperation(R(W("1"), W("*")), T.AndOperation(R(W("*"), W("5")), R(W("2"), W("*"))), R(W("*"), W("7"))),
         T.Fuzzy(T.From(W("1")), None), T.Boost(T.To(W("1"), False), None),
+        # bounds that look like the wildcard but are real bounds: never one-sided, never overwritten
+        T.AndOperation(R(W("3"), W("\\*")), R(W("*"), W("5"))),
+        T.AndOperation(R(W("\\*"), W("7")), T.From(W("2"))),
+        T.AndOperation(R(W("*"), W("5")), R(W("3"), W("\\*"))),
+        T.AndOperation(R(W("3"), W("**")), R(W("*"), W("5"))),
+        T.AndOperation(R(W("3"), W("?")), R(W("*"), W("5"))),
+        T.AndOperation(R(W("3"), W("\\\\*")), R(W("*"), W("5"))),
+        T.AndOperation(R(W("3"), T.Phrase('"\\*"')), R(W("*"), W("5"))),
+        T.AndOperation(R(W("\\*"), W("\\*")), R(W("*"), W("5")), R(W("1"), W("*"))),
+        T.AndOperation(R(W("a"), W("\\a")), R(W("*"), W("5")), R(W("1"), W("*"))),
+        T.AndOperation(T.To(W("\\*")), T.From(W("1"))),
     ]
     for t in corpus:
         trees.append((t, "corpus"))
     # exhaustive operand lists over the core alphabet
     maxlen = 4 if quick else 6
-    for n in range(0, maxlen + 1):
-        for word in itertools.product(CORE, repeat=n):
-            trees.append((T.AndOperation(*[b.operand(k) for k in word]), "exhaustive-core"))
+    done = set()
+    for alphabet, top in ((CORE5, 4 if quick else 5), (CORE, maxlen)):
+        for n in range(0, top + 1):
+            for word in itertools.product(alphabet, repeat=n):
+                if word not in done:
+                    done.add(word)
+                    trees.append((T.AndOperation(*[b.operand(k) for k in word]), "exhaustive-core"))
     if not quick:
         for n in range(0, 5):
             for word in itertools.product(FULL, repeat=n):
@@ -395,8 +443,10 @@ def correspond(model_ok, res):
     res.rule = ("operand lists over {low-bounded, high-bounded, closed, [* TO *], non-range, boosted range, fielded "
                 "range, From/To} (+ odd operands: grouped/negated range, quoted star, nested AND, comparison of a "
                 "comparison, range bound that is a range) in And/Or/Unknown/Bool, nested in field/group/boost/or/and, "
-                "x merge on/off x add_head in {' ', '', '\\n'}; exhaustive over the 4-letter core alphabet up to "
-                "length %d; non-trivial = distinct tree containing a range or a comparison" % maxlen)
+                "x merge on/off x add_head in {' ', '', '\\n'}; exhaustive over the core alphabet {low-bounded, "
+                "high-bounded, closed, non-range, closed-with-wildcard-lookalike-bound (literal \\\\*, **, ?, "
+                "\"*\", ...)} up to length %d (4 letters up to %d); non-trivial = distinct tree containing a "
+                "range or a comparison" % (4 if quick else 5, maxlen))
     res.samples = payloads[40:46]
     res.distribution = dist
     if not model_ok:
